@@ -146,10 +146,21 @@ __CPROVER_loop_invariant(0 <= i && i <= max_iterations && NV_AT(state, state0, s
 __CPROVER_loop_invariant(NV_SAME(f, state->m_fx) && NV_SAME(g, state->dg)) \
 __CPROVER_decreases(max_iterations - i)
 
-/* the virtual do_get as seen from lsearchk_t::get: the common part of every implementation's contract */
+/* ghost, fixed during a run: the dynamic type of the line search is one whose EVERY success exit is an Armijo exit at the returned step with
+ * c1 -- backtrack / LeMarechal / Fletcher (contracts above), More-Thuente (advertised/morethuente_do_get, over the reals); it is false for
+ * CG_DESCENT, whose approximate-Wolfe exit tests the approximate Armijo rule instead (advertised/cgdescent_do_get) */
+#ifndef NV_LS_ARMIJO_EXIT_DECL
+#define NV_LS_ARMIJO_EXIT_DECL
+_Bool nv_ls_armijo_exit;
+#endif
+#define NV_ARMIJO_EXIT_CLAUSE(ORIGIN_VER) \
+__CPROVER_ensures((nv_ls_armijo_exit && NV_OK) ==> (nv_armijo.res && nv_armijo.ver == state->ver && nv_armijo.origin == (ORIGIN_VER) && NV_SAME(nv_armijo.t, NV_T) && nv_armijo.c == nv_c1))
+/* the virtual do_get as seen from lsearchk_t::get: the common part of every implementation's contract (plus, under the ghost kind flag, the
+ * Armijo exit shared by the four implementations named above) */
 /* budget: the largest one of the five implementations is CG_DESCENT's 7 * max_iterations + 1 (advertised/cgdescent_do_get) */
 #define NV_CONTRACT_lsearchk_do_get NV_DOGET_REQUIRES NV_DOGET_ASSIGNS NV_DOGET_ENSURES_STATE_K(8) \
-__CPROVER_ensures(state->ver <= nv_ver_counter)
+__CPROVER_ensures(state->ver <= nv_ver_counter) \
+NV_ARMIJO_EXIT_CLAUSE(state0->ver)
 struct nv_tuple_b_f64 lsearchk_do_get(struct nv_lsearchk* self, struct nv_state* state0, struct nv_vector* descent, double step_size, struct nv_state* state, struct nv_logger* logger)
 NV_CONTRACT_lsearchk_do_get;
 
@@ -168,7 +179,9 @@ __CPROVER_ensures(state->eval_ver == state->ver && state->ver <= nv_ver_counter 
 __CPROVER_ensures(NV_OK ==> nv_ver_counter > __CPROVER_old(nv_ver_counter)) \
 __CPROVER_ensures(state->m_status == __CPROVER_old(state->m_status)) \
 /* every line search that reports success returns a finite step, for EVERY double t0 (NaN and +-inf included) */ \
-__CPROVER_ensures(NV_OK ==> NV_FINITE(NV_T))
+__CPROVER_ensures(NV_OK ==> NV_FINITE(NV_T)) \
+/* an Armijo-exit line search: success => Armijo was evaluated true on the returned state against the state on entry, with the returned step and c1 */ \
+NV_ARMIJO_EXIT_CLAUSE(__CPROVER_old(state->ver))
 /* lsearchk_t::stpmin() = 10 * machine epsilon (proved: steps/stpmin) */
 #define NV_STPMIN 2.220446049250313e-15
 #define NV_LOOP_lsearchk_get_1 \
